@@ -54,7 +54,7 @@ def cases(tier):
                         sp = [t] * d
                         if setup == "periodic":
                             # equal end cells on the periodic axis (unequal ends: recorded finding of C03/C01)
-                            pax = next((ax for ax in range(d) if U.periodic_ok(U.AXES[cls][ax])), None)
+                            pax = U.periodic_axis(cls, shape, org)
                             if pax is not None:
                                 sp[pax] = "U"
                         for part in ("implicit", "explicit", "loop"):
@@ -69,7 +69,7 @@ def weight(case):
 def make_bc(g, setup):
     bc = pf.BoundaryConditions(g.mesh)
     kinds = U.AXES[g.cls]
-    pax = next((ax for ax in range(g.d) if U.periodic_ok(kinds[ax])), None) if setup == "periodic" else None
+    pax = U.periodic_axis(g.cls, g.dims, g.spec["org"]) if setup == "periodic" else None
     t = 0
     for ax in range(g.d):
         for hi, side in enumerate(U.SIDES[ax]):
